@@ -86,4 +86,25 @@ def locate (p : Nat) : Nat → Nat → Nat → Cigar → Option (Nat × Nat × N
     else if op == 4 then locate p (i + 1) refPos (queryPos + len) rest
     else locate p (i + 1) refPos queryPos rest
 
+/-! ## prefix of an alignment -/
+
+/-- reference-consuming *aligned* columns: M/=/X and D (N is handled separately) -/
+def isRefCol (c : Nat) : Bool := isMatch c || c == 2
+/-- query-consuming aligned columns: M/=/X and I (a soft clip is not part of a re-alignment window) -/
+def isQueryCol (c : Nat) : Bool := isMatch c || c == 1
+
+/-- the longest prefix of a column list that ends right after its `k`-th reference-consuming column and does not
+reach an N column (an N is "the end of the read") -/
+def takeRef : Nat → List Nat → List Nat
+  | 0, _ => []
+  | _, [] => []
+  | k + 1, c :: cs => if c == 3 then [] else if isRefCol c then c :: takeRef k cs else c :: takeRef (k + 1) cs
+
+def countRef (cols : List Nat) : Nat := (cols.filter isRefCol).length
+def countQuery (cols : List Nat) : Nat := (cols.filter isQueryCol).length
+
+def enumFrom {α} : Nat → List α → List (Nat × α)
+  | _, [] => []
+  | n, x :: xs => (n, x) :: enumFrom (n + 1) xs
+
 end WhVerif.C06
